@@ -76,6 +76,7 @@ def worker(args):
                 if it == 0: part.sample({"part": "format round trip", "options": opts, "before": text[:160], "after": new[:160]}, 1)
         except (ServerDied, Timeout, FrameError) as e:
             feat.died(part, e, "formatting request", sc, sess)
+    feat.report(part)
     sess.kill()
     return part
 
